@@ -357,9 +357,20 @@ pub fn record(seed: u64, n: usize, facts: Facts, out: &str, rep: &mut Report) {
         let mut rng = StdRng::seed_from_u64(seed ^ (i << 18) ^ 0xC19);
         let mut page = Page::new(facts);
         let mut events: Vec<J> = vec![];
-        let first = if rng.gen_bool(0.7) { json!({"k": "load", "text": bytes(PROGRAMS[rng.gen_range(0..PROGRAMS.len())])}) } else { json!({"k": "start", "text": []}) };
+        // one session in thirty loads a program of several hundred lines (LIST then yields hundreds of records in one call)
+        let big = rng.gen_bool(0.03);
+        let first = if big {
+            let n_lines = rng.gen_range(257..=420);
+            let prog: Vec<String> = (1..=n_lines).map(|k| if k == n_lines { format!("{} END", k * 10) } else { format!("{} X=X+{}", k * 10, k % 7) }).collect();
+            json!({"k": "load", "text": bytes(&prog.join("\n"))})
+        } else if rng.gen_bool(0.7) { json!({"k": "load", "text": bytes(PROGRAMS[rng.gen_range(0..PROGRAMS.len())])}) } else { json!({"k": "start", "text": []}) };
         let mut evs = vec![first];
-        let len = rng.gen_range(2..25);
+        if big {
+            evs.push(json!({"k": "break", "text": []}));
+            evs.push(json!({"k": "submit", "text": bytes("LIST")}));
+            evs.push(json!({"k": "submit", "text": bytes("PRINT X")}));
+        }
+        let len = if big { 3 } else { rng.gen_range(2..25) };
         for _ in 0..len {
             evs.push(match rng.gen_range(0..10) {
                 0..=3 => json!({"k": "tick", "text": []}),
@@ -373,7 +384,13 @@ pub fn record(seed: u64, n: usize, facts: Facts, out: &str, rep: &mut Report) {
             }
             events.push(e.clone());
             let d = page.display();
-            writeln!(f, "{}", json!({"run": i, "first": j == 0, "e": e, "obs": d, "unfaithful": page.unfaithful.len()})).unwrap();
+            if big {
+                // sessions with a several-hundred-line program are judged by the adapter-vs-core comparison only:
+                // evaluating them in TLC costs minutes per event
+                rep.count("events_big_program_not_judged_by_model");
+            } else {
+                writeln!(f, "{}", json!({"run": i, "first": j == 0, "e": e, "obs": d, "unfaithful": page.unfaithful.len()})).unwrap();
+            }
             rep.count("events");
             if page.trap.is_some() {
                 let names: Vec<String> = events.iter().map(|e| format!("{} {:?}", e["k"].as_str().unwrap_or(""), text_of(&e["text"]))).collect();
